@@ -79,3 +79,94 @@ REPLAYERS = {"pyanalyze.functions.compute_parameters": r_c13}
 
 if __name__ == "__main__":
     print(search())
+
+
+def _install_module(name, code):
+    import sys
+    import types
+    m = types.ModuleType(name)
+    m.__file__ = f"/tmp/{name}.py"
+    exec(compile(code, m.__file__, "exec"), m.__dict__)
+    sys.modules[name] = m
+    return m
+
+
+def search_two_routes():
+    """the same call judged through the def-statement route (nested def in the checked module) and the
+    runtime-object route (function imported from another module)"""
+    import sys
+    from replay.checkcode import check_code
+    headers = ["x: int", "x: int = 1", "x: int, /, y: str", "*args: int", "**kw: str", "x: int, *, k: int = 0", "x: int, *args: str, k: int, **kw: int",
+               "x: 'int'", "x: 'int' = 1"]
+    calls = ["1", "'a'", "", "1, 2", "x=1", "k='a'", "1, 'a'", "1, k=2", "1, 'b', k=3, z=4", "*[1, 2]", "**{'x': 1}"]
+    for prefix in ("", "async "):
+        for hi, h in enumerate(headers):
+            name = f"verif_c13_lib_{'a' if prefix else 's'}{hi}"
+            _install_module(name, f"{prefix}def top({h}) -> int:\n    return 0\n")
+            try:
+                lines = [f"from {name} import top", "def use_top() -> None:"]
+                for c in calls:
+                    lines.append(f"    top({c})")
+                lines += ["def outer() -> None:", f"    {prefix}def nested({h}) -> int:", "        return 0"]
+                for c in calls:
+                    lines.append(f"    nested({c})")
+                res = check_code("\n".join(lines) + "\n")
+            finally:
+                sys.modules.pop(name, None)
+            by_line = {}
+            for f in res:
+                if f.get("code") is not None and f["code"].name in ("incompatible_call", "incompatible_argument"):
+                    by_line.setdefault(f["lineno"], set()).add(f["code"].name)
+            for ci, c in enumerate(calls):
+                l_top = 3 + ci
+                l_nested = 3 + len(calls) + 3 + ci
+                if by_line.get(l_top, set()) != by_line.get(l_nested, set()):
+                    return f"`{prefix}def f({h})` called as f({c}): runtime-object route reports {sorted(by_line.get(l_top, set()))}, def-statement route reports {sorted(by_line.get(l_nested, set()))}"
+    # return type of an un-annotated async def, and Unpack[...] annotations written as strings
+    name = "verif_c13_lib_async"
+    _install_module(name, "async def top(k):\n    return k\n")
+    try:
+        code = (f"from {name} import top\n"
+                "def use_top() -> int:\n    return top('k')\n"
+                "def outer() -> int:\n    async def nested(k):\n        return k\n    return nested('k')\n")
+        res = check_code(code)
+    finally:
+        sys.modules.pop(name, None)
+    lines = sorted(f["lineno"] for f in res if f.get("code") is not None and f["code"].name == "incompatible_return_value")
+    if lines not in ([3, 7], []):
+        return f"un-annotated async def: incompatible_return_value reported on lines {lines}; the two routes (line 3 runtime object, line 7 def statement) disagree"
+    name = "verif_c13_lib_unpack"
+    lib = ("from typing_extensions import Unpack, TypedDict\nfrom typing import Tuple\n"
+           "class Opts(TypedDict):\n    a: int\n"
+           "def top(*args: 'Unpack[Tuple[int, str]]', **kw: 'Unpack[Opts]') -> int:\n    return 0\n")
+    _install_module(name, lib)
+    calls = ["1, 'a', a=1", "'x', 2, a=1", "1, 'a', a='no'"]
+    try:
+        lines = [f"from {name} import top, Opts", "from typing_extensions import Unpack", "from typing import Tuple", "def outer() -> None:",
+                 "    def quoted(*args: 'Unpack[Tuple[int, str]]', **kw: 'Unpack[Opts]') -> int:", "        return 0",
+                 "    def plain(*args: Unpack[Tuple[int, str]], **kw: Unpack[Opts]) -> int:", "        return 0"]
+        first = len(lines) + 1
+        for fn in ("top", "quoted", "plain"):
+            for c in calls:
+                lines.append(f"    {fn}({c})")
+        res = check_code("\n".join(lines) + "\n")
+    finally:
+        sys.modules.pop(name, None)
+    if any(f.get("code") is not None and f["code"].name == "invalid_annotation" for f in res):
+        return "Unpack[...] written as a string annotation on *args/**kwargs is reported as invalid_annotation, the same annotation written plainly is accepted"
+    flagged = {f["lineno"] for f in res if f.get("code") is not None and f["code"].name in ("incompatible_call", "incompatible_argument")}
+    verdicts = {fn: [first + k * len(calls) + i in flagged for i in range(len(calls))] for k, fn in enumerate(("top", "quoted", "plain"))}
+    if not (verdicts["top"] == verdicts["quoted"] == verdicts["plain"]):
+        return f"Unpack[...] annotations on *args/**kwargs: calls {calls} are flagged {verdicts} (imported function with string annotations / nested def with string annotations / nested def with plain annotations)"
+    return None
+
+
+def r_c13_bounded(rec):
+    for fn in (search, search_two_routes):
+        msg = fn()
+        if msg:
+            return True, msg
+    return False, "def-statement and runtime-object routes agree on the generated headers and calls"
+
+
+REPLAYERS["C13.bounded"] = r_c13_bounded
